@@ -15,6 +15,7 @@ package kms
 //@   ensures err == nil ==> result != nil
 
 //@ func (keys).get
+//@   names k, region
 //@   facet C17
 //@   safety C17
 //@   loop 1 invariant 0 <= iter && iter <= len(k) && (forall j int :: 0 <= j && j < iter ==> k[j].Region != region)
@@ -31,7 +32,7 @@ package kms
 //@   safety C17
 //@   opt no-frame
 //@   requires m != nil && m.Crypto != nil && distinctClients(m) && (forall a int :: 0 <= a && a < len(m.Clients) ==> m.Clients[a].KMS != nil)
-//@   loop 1 invariant [C17:regions-tried-in-client-order] 0 <= iter && iter <= len(m.Clients) && (forall j int :: 0 <= j && j < iter && hasEntry(en.KMSKEKs, m.Clients[j].Region) ==> kmstried(m.Clients[j].KMS) == old(kmstried(m.Clients[j].KMS)) + 1) && (forall j int :: iter <= j && j < len(m.Clients) ==> kmstried(m.Clients[j].KMS) == old(kmstried(m.Clients[j].KMS)))
+//@   loop 1 invariant [C17:regions-tried-in-client-order] 0 <= iter && iter <= len(m.Clients) && (forall j int :: 0 <= j && j < iter && hasEntry(dyn(arg(Unmarshal, 1, v), *envelope).KMSKEKs, m.Clients[j].Region) ==> kmstried(m.Clients[j].KMS) == old(kmstried(m.Clients[j].KMS)) + 1) && (forall j int :: iter <= j && j < len(m.Clients) ==> kmstried(m.Clients[j].KMS) == old(kmstried(m.Clients[j].KMS)))
 //@   ensures (err == nil) || result == nil
 //@   ensures [C17:unwrap-fails-only-after-every-region-with-an-entry-was-tried] err != nil && retis(Unmarshal, 1, 0, nil) ==> (forall j int :: 0 <= j && j < len(m.Clients) && hasEntry(dyn(arg(Unmarshal, 1, v), *envelope).KMSKEKs, m.Clients[j].Region) ==> kmstried(m.Clients[j].KMS) == old(kmstried(m.Clients[j].KMS)) + 1)
 //@   ensures [C17:unwrap-returns-what-the-working-region-decrypted] err == nil ==> result == ret(Decrypt, 1, 0)
@@ -56,6 +57,7 @@ package kms
 
 // generateDataKey: regions are asked in client order; the first success is returned; an error means every region failed
 //@ func generateDataKey
+//@   names ctx, clients
 //@   facet C17
 //@   safety C17
 //@   opt no-frame
@@ -81,6 +83,7 @@ package kms
 // spawned_encryptAllRegions_1(c): goroutines started for regional client c
 //@ ghost field spawned_encryptAllRegions_1(ref) int
 //@ func encryptAllRegions
+//@   names ctx, resp, clients
 //@   facet C17
 //@   safety C17
 //@   opt no-frame
